@@ -57,6 +57,7 @@ type batchState struct {
 	flagSet     bool
 	pool        *eng.Term
 	outstanding bool
+	closed      bool
 	poolEvents  bool
 	submitted   bool
 	conc        *eng.Term // result of the concurrency getter
@@ -73,7 +74,7 @@ func (s batchState) Key() string {
 	for _, r := range s.recs {
 		fmt.Fprintf(&sb, "[%s|%s|%d|%v%v%v|%s|%d|%d,%d|%v|%s|%s|%s|%s|%s|%s]", r.loop, r.base.Key(), r.c, r.startOK, r.stored, r.skipped, r.broken, r.done, r.chains, r.submits, r.failed, r.resBad, r.fillBad, r.normBad, r.normSrc.Key()+"/"+r.emptyOf.Key(), r.iterBad+"/"+r.wrapBad, r.storePos)
 	}
-	fmt.Fprintf(&sb, "%v,%d,%d,%s,%v,%v,%s,%v,%v,%s,%s|", s.chainOpen, s.inTask, s.held, s.flagRead.Key(), s.flagReadOK, s.flagSet, s.pool.Key(), s.outstanding, s.poolEvents || s.submitted, s.conc.Key(), s.execIdx.Key())
+	fmt.Fprintf(&sb, "%v,%d,%d,%s,%v,%v,%s,%v%v,%v,%s,%s|", s.chainOpen, s.inTask, s.held, s.flagRead.Key(), s.flagReadOK, s.flagSet, s.pool.Key(), s.outstanding, s.closed, s.poolEvents || s.submitted, s.conc.Key(), s.execIdx.Key())
 	for _, b := range s.execBases {
 		sb.WriteString(b.Key() + ";")
 	}
@@ -305,6 +306,8 @@ func (m *BatchMon) OnEvent(c *eng.Ctx, ms eng.MState, ev *eng.Event) eng.MState 
 				s.flagRead, s.flagReadOK = ev.Results[0], s.held > 0
 			}
 		}
+	case "index":
+		chk("C06.R9,C07.R8", "index-in-bounds", ev.Decided, "slice index "+ev.Key.Pretty()+" is not provably within the length of "+ev.Addr.Pretty()+": the batch can panic instead of settling every item")
 	case "return":
 		// the run is over: nothing it submitted may still be calling user callbacks
 		chk("C04.R3,C06.R4,C11.R4", "run-return", !s.outstanding, "Run returns while submitted tasks may still be running (no Wait on the pool after the last Submit): user callbacks of this run can be invoked after it has ended")
@@ -337,10 +340,10 @@ func (m *BatchMon) OnEvent(c *eng.Ctx, ms eng.MState, ev *eng.Event) eng.MState 
 		case "cfg:GetBatchConcurrency":
 			if len(ev.Results) > 0 {
 				s.conc = ev.Results[0]
-				chk("C08.R6,C19.R7", "config-read", cfgRecv(ev) != nil && cfgRecv(ev).Contains(m.Life.Node), "batch concurrency is not read from the node being run")
+				chk("C08.R6,C19.R7", "config-read", cfgRecv(ev) != nil && cfgRecv(ev).Contains(m.Life.Node) && validAssertions(c, cfgRecv(ev)), "batch concurrency is not read from the node being run (or through a type assertion that is not known to hold)")
 			}
 		case "cfg:GetBatchErrorHandling":
-			chk("C08.R6,C19.R7", "config-read", cfgRecv(ev) != nil && cfgRecv(ev).Contains(m.Life.Node), "batch error handling is not read from the node being run")
+			chk("C08.R6,C19.R7", "config-read", cfgRecv(ev) != nil && cfgRecv(ev).Contains(m.Life.Node) && validAssertions(c, cfgRecv(ev)), "batch error handling is not read from the node being run (or through a type assertion that is not known to hold)")
 		case "pool.New":
 			s.poolEvents = true
 			if len(ev.Results) > 0 {
@@ -351,6 +354,7 @@ func (m *BatchMon) OnEvent(c *eng.Ctx, ms eng.MState, ev *eng.Event) eng.MState 
 		case "pool.Submit":
 			s.poolEvents = true
 			chk("C06.R4", "submit", len(ev.Args) >= 1 && ev.Args[0] == s.pool && s.pool != nil, "task submitted to a pool other than the batch's pool")
+			chk("C06.R4,C12.R6", "submit", !s.closed, "a task is submitted after the pool was closed (send on a closed channel panics)")
 			s.outstanding, s.submitted = true, true
 			s.cow()
 			for i := range s.recs {
@@ -364,6 +368,7 @@ func (m *BatchMon) OnEvent(c *eng.Ctx, ms eng.MState, ev *eng.Event) eng.MState 
 			}
 		case "pool.Close":
 			chk("C06.R4", "pool-close", !s.outstanding, "the pool is closed before Wait: queued tasks may never run")
+			s.closed = true
 		case "cb:Exec":
 			s = m.onExec(c, s, life, ev, chk)
 		case "cb:Post":
@@ -516,6 +521,10 @@ func (m *BatchMon) onStore(c *eng.Ctx, s batchState, life lifeState, ev *eng.Eve
 	st, _ := ev.Instr.(*ssa.Store)
 	if ev.Volatile {
 		chk("C09.R2", "stop-flag-write", s.held > 0 || !s.submitted, "the shared stop flag is written without holding the mutex")
+		if !s.submitted && s.inTask == 0 {
+			// initialisation, before any task exists: nothing has failed yet
+			chk("C09.R2,C06.R2", "stop-flag-init", ev.Val.IsFalse(), "the shared stop flag starts as "+ev.Val.Pretty()+": in stop mode every item would be skipped although nothing has failed")
+		}
 		chk("C07.R4", "shared-write", ev.Val.IsTrue() || ev.Val.IsFalse(), "a variable shared between batch tasks receives a value computed from an item ("+ev.Val.Pretty()+"): items are no longer processed independently")
 		if ev.Val.IsTrue() {
 			s.flagSet = true
@@ -642,6 +651,22 @@ func (m *BatchMon) onPost(c *eng.Ctx, s batchState, life lifeState, ev *eng.Even
 	// empty batch: both lists empty
 	if c.Eval(eng.Bin("==", li, eng.ConstInt(0))) == eng.TriTrue {
 		chk("C06.R1", "post-empty", c.Eval(eng.Bin("==", lr, eng.ConstInt(0))) == eng.TriTrue, "an empty batch must hand post an empty result list")
+		// post may be told "nothing to do" only when what prep produced is known to be empty
+		var P *eng.Term
+		if life.prepVal != nil && m.R.Result != nil {
+			switch m.Case.Prep {
+			case 0:
+				P = eng.TA(life.prepVal, types.NewSlice(m.R.Result))
+			case 1:
+				P = eng.TA(life.prepVal, types.NewSlice(types.Universe.Lookup("any").Type()))
+			case 2:
+				if s.toSliceRes != nil && s.toSliceArg == life.prepVal {
+					P = s.toSliceRes
+				}
+			}
+		}
+		okEmpty := P != nil && c.Eval(eng.Bin("==", c.E.LenTerm(c.St, P), eng.ConstInt(0))) == eng.TriTrue
+		chk("C06.R1,C07.R2", "post-empty", okEmpty, "post receives empty lists although the list prep produced is not known to be empty on this path: items would be dropped without being processed")
 		return
 	}
 	chk("C06.R1", "post", li == lr, "the result list handed to post has length "+lr.Pretty()+", the item list "+li.Pretty())
@@ -756,6 +781,18 @@ func zeroTripSlice(ev *eng.Event) *eng.Term {
 }
 
 // cfgRecv returns the receiver of a configuration getter call (static or through an interface).
+// validAssertions: every type assertion the term goes through is known to hold on this
+// path (the value of a failed comma-ok assertion is the zero value, not the node).
+func validAssertions(c *eng.Ctx, t *eng.Term) bool {
+	ok := true
+	t.Walk(func(n *eng.Term) {
+		if n.K == eng.KTA && len(n.A) == 1 && n.T != nil && c.Eval(eng.TAOk(n.A[0], n.T)) != eng.TriTrue {
+			ok = false
+		}
+	})
+	return ok
+}
+
 func cfgRecv(ev *eng.Event) *eng.Term {
 	if ev.Recv != nil {
 		return ev.Recv
